@@ -80,6 +80,15 @@ def gen_cases(seed, tier):
     for _ in range(400 if quick else 5000):
         cases.append(PC.mk_case('chained', docgen.soup(rnd, docgen.SYM_CHAINED, 2, 9), False, 'chained-deltas'))
     cases += PC.twin_cases(random.Random(seed + 82), 250 if quick else 4000, tolerant=(False, True))
+    # an argument read with formulas switched OFF (the url of \\link{url}{text}) inside a formula: the formula's own
+    # delimiters are ordinary characters there, the formula ends where it was closed (real code only)
+    r4 = random.Random(seed + 84)
+    for op, cl in (('$', '$'), ('$$', '$$'), ('\\(', '\\)'), ('\\[', '\\]')):
+        for u in (cl, 'x' + cl + 'y', cl + cl, op + 'z' + cl, 'p' + op, '$', '$$', 'a'):
+            for head, tail in (('a', 'c'), ('', ''), ('{', '}'), ('\\plain{', '}')):
+                s = op + head + '\\link{' + u + '}{b}' + tail + cl
+                cases.append({'wire': [999], 'nt': True,
+                              'desc': {'ctx': 'chained', 's': s, 'tolerant': False, 'origin': 'math-off-argument'}})
     # definitions made while parsing (\\dm{name} defines \\name from there on; real code only): whatever number of
     # them precedes it, every environment and every macro they do not define is still looked up as configured
     r3 = random.Random(seed + 83)
@@ -319,6 +328,14 @@ def oracle(c):
         return _oracle_delims(d)
     if d.get('origin') == 'chained-twin':
         return PC.oracle_twin(d)
+    if d.get('origin') == 'math-off-argument':
+        r = PC.real_parse(d)
+        if r[0] != 'ok':
+            return ('well-formed-document-rejected', {'error': str(r[1])[:200]})
+        top = [n for n in r[1]]
+        if len(top) != 1 or treedump.kind(top[0]) != '$' or (top[0].pos, top[0].pos_end) != (0, len(d['s'])):
+            return ('formula-does-not-end-where-it-was-closed', {'tree': treedump.dump(r[1])[:400]})
+        return _check(r[1], (False, None), [], None)
     r = PC.real_parse(d)
     if r[0] != 'ok' or r[1] is None:
         s = d['s']
